@@ -4,6 +4,9 @@
         generate one-point mutants of the files each property is anchored in (properties.jsonl), run the
         quick check of every property anchored in the mutated file on a scratch copy, write
         /verif/notes/mutation/<date>.json (every mutant with its verdict per property)
+  python tools/mutate.py sweep --equivalent [...]
+        the same machinery with behaviour-preserving rewrites instead (literal operand of + / * moved to the other side, a < b as b > a,
+        the arms of an if / conditional expression exchanged under a negated test): every check must stay silent
   python tools/mutate.py tests <report.json>
         for the mutants no check noticed: run the repository's own tests of that package on the mutant
         (does the existing suite notice?) and add the outcome to the report
@@ -70,7 +73,8 @@ def _swap(node, **kw):
     return n
 
 
-def sites_of(tree: ast.Module) -> list[Site]:
+def sites_of(tree: ast.Module, equivalent: bool = False) -> list[Site]:
+    """Mutation sites; with equivalent=True the behaviour-preserving rewrites instead (the checks must stay silent on them)."""
     out: list[Site] = []
 
     def visit(node, func):
@@ -95,7 +99,28 @@ def sites_of(tree: ast.Module) -> list[Site]:
                 continue
             visit(ch, func)
 
+    def numeric_const(n):
+        return isinstance(n, ast.Constant) and isinstance(n.value, int | float) and not isinstance(n.value, bool)
+
+    def rewrite(node, func):
+        # a op b with a numeric literal on one side, op commutative
+        if isinstance(node, ast.BinOp) and isinstance(node.op, ast.Add | ast.Mult) and (numeric_const(node.left) != numeric_const(node.right)):
+            out.append(Site(node, _swap(node, left=node.right, right=node.left), 'eq-commute', func))
+        # a < b  <->  b > a  (and the other three orderings; == and != by symmetry)
+        elif isinstance(node, ast.Compare) and len(node.ops) == 1 and type(node.ops[0]) in (ast.Lt, ast.LtE, ast.Gt, ast.GtE, ast.Eq, ast.NotEq) \
+                and not any(isinstance(x, ast.Constant) and x.value is None for x in (node.left, node.comparators[0])):
+            flip = {ast.Lt: ast.Gt, ast.LtE: ast.GtE, ast.Gt: ast.Lt, ast.GtE: ast.LtE, ast.Eq: ast.Eq, ast.NotEq: ast.NotEq}[type(node.ops[0])]
+            out.append(Site(node, ast.Compare(left=node.comparators[0], ops=[flip()], comparators=[node.left]), 'eq-cmpflip', func))
+        # x if c else y  <->  y if not c else x
+        elif isinstance(node, ast.IfExp):
+            out.append(Site(node, ast.IfExp(test=ast.UnaryOp(op=ast.Not(), operand=node.test), body=node.orelse, orelse=node.body), 'eq-ifexp', func))
+        # if c: A else: B  <->  if not c: B else: A   (only plain two-armed ifs)
+        elif isinstance(node, ast.If) and node.orelse and not (len(node.orelse) == 1 and isinstance(node.orelse[0], ast.If)):
+            out.append(Site(node, ast.If(test=ast.UnaryOp(op=ast.Not(), operand=node.test), body=node.orelse, orelse=node.body), 'eq-ifnot', func))
+
     def mutate(node, func):
+        if equivalent:
+            return rewrite(node, func)
         if isinstance(node, ast.BinOp):
             pairs = {ast.Add: ast.Sub, ast.Sub: ast.Add, ast.Mult: ast.Div, ast.Div: ast.Mult}
             t = pairs.get(type(node.op))
@@ -158,6 +183,9 @@ def render(src: str, site: Site) -> str | None:
     new = ast.unparse(site.new_node)
     if isinstance(site.new_node, ast.expr):
         new = '(' + new + ')'
+    elif '\n' in new:
+        pad = ' ' * n.col_offset
+        new = ('\n' + pad).join(new.splitlines())
     out = (b[:start] + new.encode() + b[end:]).decode()
     try:
         ast.parse(out)
@@ -166,7 +194,7 @@ def render(src: str, site: Site) -> str | None:
     return out
 
 
-def gen_mutants(props: list[str] | None, max_per_file: int) -> list[dict]:
+def gen_mutants(props: list[str] | None, max_per_file: int, equivalent: bool = False) -> list[dict]:
     muts = []
     for rel, pids in sorted(anchors().items()):
         pids = [p for p in pids if not props or p in props]
@@ -174,12 +202,14 @@ def gen_mutants(props: list[str] | None, max_per_file: int) -> list[dict]:
             continue
         path = os.path.join(REPO, rel)
         src = open(path, encoding='utf-8').read()
-        sites = sites_of(ast.parse(src))
+        sites = sites_of(ast.parse(src), equivalent)
         step = max(1, len(sites) // max_per_file)
         for k, s in enumerate(sites[::step]):
             text = render(src, s)
             if text is None or text == src:
                 continue
+            if s.op == 'eq-ifnot' and (ast.get_source_segment(src, s.node) or '').startswith('elif'):
+                continue  # an arm of an if / elif chain cannot be rewritten on its own
             muts.append({'id': f'{rel.split("scippneutron/")[-1]}#{k * step}', 'file': rel, 'func': s.func, 'op': s.op, 'line': s.node.lineno,
                          'old': ast.get_source_segment(src, s.node), 'new': ast.unparse(s.new_node), 'props': pids, 'text': text})
     return muts
@@ -233,8 +263,9 @@ def main(argv):
     if cmd == 'sweep':
         props = [a for a in argv[1:] if not a.startswith('--')]
         mpf = int(next((a.split('=')[1] for a in argv if a.startswith('--max-per-file=')), '400'))
-        muts = gen_mutants(props, mpf)
-        print(f'{len(muts)} mutants')
+        equivalent = '--equivalent' in argv
+        muts = gen_mutants(props, mpf, equivalent)
+        print(f'{len(muts)} ' + ('behaviour-preserving rewrites' if equivalent else 'mutants'))
         base = tempfile.mkdtemp(prefix='verif_mut_')
         try:
             with cf.ThreadPoolExecutor(max_workers=jobs) as ex:
@@ -245,10 +276,13 @@ def main(argv):
         finally:
             shutil.rmtree(base, ignore_errors=True)
         os.makedirs(os.path.join(VERIF, 'notes', 'mutation'), exist_ok=True)
-        out = os.path.join(VERIF, 'notes', 'mutation', datetime.date.today().isoformat() + ('_' + '_'.join(props) if props else '') + '.json')
+        out = os.path.join(VERIF, 'notes', 'mutation', datetime.date.today().isoformat() + ('_equivalent' if equivalent else '') + ('_' + '_'.join(props) if props else '') + '.json')
         for m in muts:
             m.pop('text')
         json.dump(muts, open(out, 'w'), indent=1)
+        if equivalent:
+            print(f'rewrites that made a check speak (false alarms): {sum(1 for m in muts if m["noticed"])}; that broke an analysis: {sum(1 for m in muts if m["broken"])}; of {len(muts)}; report {out}')
+            return 0
         n_not = sum(1 for m in muts if m['noticed'])
         print(f'noticed by a check: {n_not}/{len(muts)}; analysis broken (exit 2) only: {sum(1 for m in muts if not m["noticed"] and m["broken"])}; report {out}')
         return 0
